@@ -399,6 +399,7 @@ class Machine:
     def _viol(self, kind, msg, **detail):
         self.out.violation(kind, "%s  [history: %s]" % (msg, " ; ".join(self.trace)), sig=detail.pop("sig", None),
                            nops=len(self.trace), **detail)
+        self.out.trace = {"history": list(self.trace)}
 
     def _insert_depth(self, slot):
         """Depth argument for add_*: None, == maxdepth, coarser, or > maxdepth (clipped by the API)."""
